@@ -427,7 +427,10 @@ def gen_concurrent(rng, kind, n):
 
 FAULT_CMDS = [("NOOP", ["e4", "e5", "close"]), ("MAIL", ["e4", "e5", "close"]), ("RCPT", ["e4", "e5", "close"]),
               ("DATA", ["e4", "e5", "close"]), ("BODY", ["e4", "e5", "close", "commit_close"]), ("EHLO", ["e5", "close"]),
-              ("GREET", ["e5", "close"])]
+              ("GREET", ["e5", "close"]),
+              # the goodbye of a connection that is not kept (pooling off, surplus, after a failure): whatever happens to it, the verdict of
+              # the send that went before stands
+              ("QUIT", ["e4", "e5", "close"])]
 
 
 def gen_faults(rng, kind, n):
